@@ -38,31 +38,32 @@ func goStr(e ast.Node) string {
 }
 
 type transSpec struct {
-	leanName   string                                  // name of the generated definition
-	binders    string                                  // Lean binders of the definition
-	retType    string                                  // Lean result type
-	exprMap    map[string]string                       // printed Go expression -> Lean term (fields of the receiver / parameters)
-	state      []string                                // tracked mutable variables (Go printed form), in order
-	stateLn    []string                                // their Lean names
-	ret        func(vals []string, st []string) string // result term for `return vals...` with the current state
-	fallOff    func(st []string) string                // result when the function body ends
-	panicVal   string                                  // result of panic(...)
-	skipCall   func(c *ast.CallExpr) bool              // statements to ignore (hooks, logging)
-	skipStmt   func(st ast.Stmt) bool                  // whole statements left out of the translation (named in the spec)
-	evVar      string                                  // Lean name of the tracked event list (effects are appended to it)
-	effects    map[string]string                       // printed call -> event name
-	binds      map[string][][2]string                  // printed call on the right of `a, b := call` -> (Go name, Lean term)
-	wraps      map[string]func(tail string) string     // printed call statement -> the Lean term around the rest (a translated callee)
-	stateTy    []string                                // Lean types of the tracked variables (needed for `for cond {}` loops, which become `let rec`)
-	mapDefault map[string]string                       // tracked Go maps (by Lean name): the value read for an absent key
-	litType    string                                  // Lean type of integer literals ("" = Nat)
-	loopFuel   string                                  // fuel of `for cond {}` loops (a Lean term over the tracked variables)
-	topCont    bool                                    // `continue` outside a translated loop ends the translated block
-	closeEv    bool                                    // close(ch) appends ch to the event list
-	labelExit  map[string]func(st []string) string     // `break LABEL` / `continue LABEL`: the result of the translated block
-	selectBrk  func(st []string) string                // a plain `break` directly inside a select case: leaves the select only
-	join       bool                                    // the statements after an if become a shared local continuation (no duplication)
-	zero       map[string]string                       // Go type (printed) -> Lean zero value, for `var x T`
+	leanName     string                                  // name of the generated definition
+	binders      string                                  // Lean binders of the definition
+	retType      string                                  // Lean result type
+	exprMap      map[string]string                       // printed Go expression -> Lean term (fields of the receiver / parameters)
+	state        []string                                // tracked mutable variables (Go printed form), in order
+	stateLn      []string                                // their Lean names
+	ret          func(vals []string, st []string) string // result term for `return vals...` with the current state
+	fallOff      func(st []string) string                // result when the function body ends
+	panicVal     string                                  // result of panic(...)
+	skipCall     func(c *ast.CallExpr) bool              // statements to ignore (hooks, logging)
+	skipStmt     func(st ast.Stmt) bool                  // whole statements left out of the translation (named in the spec)
+	evVar        string                                  // Lean name of the tracked event list (effects are appended to it)
+	effects      map[string]string                       // printed call -> event name
+	binds        map[string][][2]string                  // printed call on the right of `a, b := call` -> (Go name, Lean term)
+	wraps        map[string]func(tail string) string     // printed call statement -> the Lean term around the rest (a translated callee)
+	stateTy      []string                                // Lean types of the tracked variables (needed for `for cond {}` loops, which become `let rec`)
+	mapDefault   map[string]string                       // tracked Go maps (by Lean name): the value read for an absent key
+	sliceDefault map[string]string                       // tracked Go slices (by Lean name) read and written by index: `s[i]` = `s.getD i d`, `s[i] = v` = `s.set i v`
+	litType      string                                  // Lean type of integer literals ("" = Nat)
+	loopFuel     string                                  // fuel of `for cond {}` loops (a Lean term over the tracked variables)
+	topCont      bool                                    // `continue` outside a translated loop ends the translated block
+	closeEv      bool                                    // close(ch) appends ch to the event list
+	labelExit    map[string]func(st []string) string     // `break LABEL` / `continue LABEL`: the result of the translated block
+	selectBrk    func(st []string) string                // a plain `break` directly inside a select case: leaves the select only
+	join         bool                                    // the statements after an if become a shared local continuation (no duplication)
+	zero         map[string]string                       // Go type (printed) -> Lean zero value, for `var x T`
 }
 
 type translator struct {
@@ -157,6 +158,9 @@ func (t *translator) expr(e ast.Expr) string {
 		if ln, ok := t.lookup(x.X); ok {
 			if d, ok := t.spec.mapDefault[ln]; ok {
 				return "((List.lookup (" + t.expr(x.Index) + ") " + ln + ").getD " + d + ")"
+			}
+			if d, ok := t.spec.sliceDefault[ln]; ok {
+				return "(" + ln + ".getD (" + t.expr(x.Index) + ") " + d + ")"
 			}
 		}
 	case *ast.BinaryExpr:
@@ -492,6 +496,9 @@ func (t *translator) stmts(list []ast.Stmt, next func() string, cont, brk string
 				if ln, ok := t.lookup(ix.X); ok {
 					for _, s := range t.spec.stateLn {
 						if s == ln {
+							if _, isSlice := t.spec.sliceDefault[ln]; isSlice {
+								return "(let " + ln + " := " + ln + ".set (" + t.expr(ix.Index) + ") " + t.expr(x.Rhs[0]) + "; " + tail() + ")"
+							}
 							if _, isMap := t.spec.mapDefault[ln]; isMap {
 								// keys stay unique (the list is also ranged over)
 								return "(let " + ln + " := (" + t.expr(ix.Index) + ", " + t.expr(x.Rhs[0]) + ") :: " + ln + ".filter (fun kv => !(kv.1 == " + t.expr(ix.Index) + ")); " + tail() + ")"
@@ -1472,6 +1479,81 @@ func genLSM(repo, out string) {
 }
 
 // genTable writes Generated/Table.lean: the binary searches Data.LowerBound and Index.LowerBound
+// genFilter: pkg/filter/filter.go — Add, Contains, Build
+func genFilter(repo, out string) {
+	p := parseDir(repo + "/pkg/filter")
+	var sb strings.Builder
+	sb.WriteString("/-! GENERATED by /verif/extract (gotrans.go) from /repo/pkg/filter/filter.go on every check run. Do not edit.\n")
+	sb.WriteString("    `Filter.Add`, `Filter.Contains` and `Build`.  `hashFns` is the list of the seeds of the hash functions, `h fn key` stands for\n")
+	sb.WriteString("    `fn.Write(key); fn.Sum32()` on a reset hash state (the state is Reset after every use), `bitset` is the slice of bits,\n")
+	sb.WriteString("    `m`, `k` are the results of the floating point formulas of `New`, `ukey e` is `types.ParseKey(e.Key)`.\n")
+	sb.WriteString("    `Model/FilterTie.lean` proves them equal to the model `Filter` and that a built filter contains every key it was built from. -/\n")
+	sb.WriteString("set_option linter.unusedVariables false\nnamespace GenFilter\n\n")
+	idx := "int(fn.Sum32()) % len(f.bitset)"
+	skipHash := func(st ast.Stmt) bool { return goStr(st) == "_, _ = fn.Write([]byte(key))" }
+	skipReset := func(c *ast.CallExpr) bool { return goStr(c) == "fn.Reset()" }
+	emit := func(name string, fd *ast.FuncDecl, sp transSpec) {
+		d := ""
+		err := fmt.Errorf("filter %s not found", name)
+		if fd != nil {
+			d, err = translateFunc(fd, sp)
+		}
+		if err != nil {
+			d = fmt.Sprintf("/-- UNTRANSLATABLE: %s -/\ndef %s : Unit := ()\n", strings.ReplaceAll(err.Error(), "-/", "- /"), sp.leanName)
+		}
+		sb.WriteString(d + "\n")
+	}
+	emit("Add", findFunc(p, "Filter", "Add"), transSpec{
+		leanName: "add",
+		binders:  "{κ : Type} (h : Nat → κ → Nat) (hashFns : List Nat) (bitset : List Bool) (key : κ)",
+		retType:  "List Bool",
+		exprMap:  map[string]string{idx: "(h fn key % bitset.length)", "f.hashFns": "hashFns"},
+		state:    []string{"f.bitset"}, stateLn: []string{"bitset"}, stateTy: []string{"List Bool"},
+		sliceDefault: map[string]string{"bitset": "false"},
+		ret:          func(vals []string, st []string) string { return "bitset" },
+		fallOff:      func(st []string) string { return "bitset" },
+		panicVal:     "bitset", skipStmt: skipHash, skipCall: skipReset,
+	})
+	emit("Contains", findFunc(p, "Filter", "Contains"), transSpec{
+		leanName: "contains",
+		binders:  "{κ : Type} (h : Nat → κ → Nat) (hashFns : List Nat) (bitset : List Bool) (key : κ)",
+		retType:  "Bool",
+		exprMap:  map[string]string{idx: "(h fn key % bitset.length)", "f.hashFns": "hashFns"},
+		state:    []string{"f.bitset"}, stateLn: []string{"bitset"}, stateTy: []string{"List Bool"},
+		sliceDefault: map[string]string{"bitset": "false"},
+		ret:          func(vals []string, st []string) string { return vals[0] },
+		fallOff:      func(st []string) string { return "true" },
+		panicVal:     "false", skipStmt: skipHash, skipCall: skipReset,
+	})
+	var bfd *ast.FuncDecl
+	for _, f := range p.files {
+		for _, d := range f.Decls {
+			if x, ok := d.(*ast.FuncDecl); ok && x.Recv == nil && x.Name.Name == "Build" {
+				bfd = x
+			}
+		}
+	}
+	emit("Build", bfd, transSpec{
+		leanName: "build",
+		binders:  "{κ ε : Type} (h : Nat → κ → Nat) (ukey : ε → κ) (m k : Nat) (kvs : List ε)",
+		retType:  "List Bool",
+		state:    []string{"filter"}, stateLn: []string{"filter"}, stateTy: []string{"List Bool"},
+		binds: map[string][][2]string{"New(len(kvs), _defaultP)": {{"filter", "(List.replicate m false)"}}},
+		wraps: map[string]func(string) string{
+			"filter.Add(types.ParseKey(e.Key))": func(rest string) string {
+				return "(let filter := add h (List.range k) filter (ukey e); " + rest + ")"
+			},
+		},
+		ret:      func(vals []string, st []string) string { return "filter" },
+		fallOff:  func(st []string) string { return "filter" },
+		panicVal: "filter",
+	})
+	sb.WriteString("end GenFilter\n")
+	if err := os.WriteFile(out, []byte(sb.String()), 0644); err != nil {
+		panic(err)
+	}
+}
+
 func genTable(repo, out string) {
 	p := parseDir(repo + "/table")
 	var sb strings.Builder
